@@ -30,6 +30,12 @@ CONSTANT TraceFile
 Trace == ndJsonDeserialize(TraceFile)
 
 VARIABLE l
+\* sizes seen so far: sz[kl] the value length of the data entries written for a key of kl bytes (0 = none
+\* seen yet), msz the value length of the metadata entries. The property asks for "the same value length,
+\* which depends only on the key's length" and a metadata entry "of constant size" - not for the particular
+\* numbers of the design: a consistent size that differs from ChunkGeom's is reported as SizeModel /
+\* MetaModel (model drift, counted but not a verdict), an inconsistent one as SameSize / MetaConst.
+VARIABLES sz, msz
 Ev == Trace[l]
 
 Report(kind, want, got) == PrintT("MISMATCH " \o ToJson([l |-> l, kind |-> kind, want |-> want, got |-> got]))
@@ -71,26 +77,34 @@ ObsChunks == (len + ObsPayload - 1) \div ObsPayload
 \* the case of trace line i (beyond the end and for other events: an empty value under a key of one byte)
 CaseOf(i) == IF i <= Len(Trace) /\ Trace[i].ev = "set" THEN <<Trace[i].klen, Trace[i].vlen>> ELSE <<1, 0>>
 
-TInit == /\ l = 1
+KLens == 1..250
+TInit == /\ l = 1 /\ sz = [i \in KLens |-> 0] /\ msz = 0
          /\ k = CaseOf(1)[1] /\ len = CaseOf(1)[2]
          /\ p = Payload(k) /\ n = NumChunks(len, k)
 TNext ==
   /\ l <= Len(Trace) /\ l' = l + 1
   /\ Set(CaseOf(l + 1)[1], CaseOf(l + 1)[2])
-  /\ IF Ev.ev # "set" THEN TRUE
-     ELSE LET ch == Runs("chunk") me == Runs("meta") IN
+  /\ IF Ev.ev # "set" THEN UNCHANGED <<sz, msz>>
+     ELSE LET ch == Runs("chunk") me == Runs("meta")
+              one == ch # <<>> /\ \A j \in DOMAIN ch : ch[j].vl = ch[1].vl
+              kin == k \in KLens
+              mone == me # <<>> /\ \A j \in DOMAIN me : me[j].vl = me[1].vl IN
+          /\ sz' = IF one /\ kin /\ sz[k] = 0 THEN [sz EXCEPT ![k] = ch[1].vl] ELSE sz
+          /\ msz' = IF mone /\ msz = 0 THEN me[1].vl ELSE msz
           /\ (IF NamesOK THEN TRUE
               ELSE Report("Names", [meta |-> IF Stores THEN "1" ELSE "any", chunks |-> <<<<0, IF Stores THEN ObsChunks ELSE Count(ch), "k+1+digits">>>>, other |-> 0],
                           [meta |-> Count(me), chunks |-> [j \in DOMAIN ch |-> <<ch[j].i, ch[j].c, ch[j].kl>>],
                            other |-> Count(Runs("other"))]))
-          /\ (IF \A j \in DOMAIN ch : ch[j].vl = Full(k) THEN TRUE
-              ELSE Report("SameSize", Full(k), [j \in DOMAIN ch |-> <<ch[j].i, ch[j].c, ch[j].vl>>]))
+          /\ (IF ch = <<>> \/ (one /\ (~kin \/ sz[k] \in {0, ch[1].vl})) THEN TRUE
+              ELSE Report("SameSize", IF kin /\ sz[k] # 0 THEN sz[k] ELSE ch[1].vl, [j \in DOMAIN ch |-> <<ch[j].i, ch[j].c, ch[j].vl>>]))
+          /\ (IF one /\ ch[1].vl # Full(k) THEN Report("SizeModel", Full(k), ch[1].vl) ELSE TRUE)
           /\ (IF \A j \in DOMAIN Ev.reqs : Cost(Ev.reqs[j]) <= SlabBudget THEN TRUE
               ELSE Report("SlabFit", SlabBudget, SetMax({Cost(Ev.reqs[j]) : j \in DOMAIN Ev.reqs})))
-          /\ (IF \A j \in DOMAIN me : me[j].vl = MetaSize THEN TRUE
-              ELSE Report("MetaConst", MetaSize, [j \in DOMAIN me |-> me[j].vl]))
+          /\ (IF me = <<>> \/ (mone /\ msz \in {0, me[1].vl}) THEN TRUE
+              ELSE Report("MetaConst", IF msz # 0 THEN msz ELSE me[1].vl, [j \in DOMAIN me |-> me[j].vl]))
+          /\ (IF mone /\ me[1].vl # MetaSize THEN Report("MetaModel", MetaSize, me[1].vl) ELSE TRUE)
           /\ (IF Stores /\ Count(ch) # ObsChunks THEN Report("Ceil", ObsChunks, Count(ch)) ELSE TRUE)
           /\ (IF Wrote /\ Ev.meta.ok /\ Ev.meta.n # ObsChunks THEN Report("CeilMeta", ObsChunks, Ev.meta.n) ELSE TRUE)
 
-TSpec == TInit /\ [][TNext]_<<l, vars>>
+TSpec == TInit /\ [][TNext]_<<l, sz, msz, vars>>
 =============================================================================
